@@ -17,10 +17,10 @@ pub struct Plan {
     pub faults: Vec<(u64, Payload)>, // (fault point index, payload kind)
     pub seed: u64,
 }
-pub const OP_NAMES: [&str; 39] = [
+pub const OP_NAMES: [&str; 40] = [
     "new_conn", "drop_conn", "add", "echo_string", "echo_vec", "sum_ref", "len_ref", "count_str", "sum_slice", "try_div", "bump", "many",
     "call_fn", "call_fnmut", "take_boxed_fn", "call_stored", "drop_stored", "take_leaf", "ping_leaves", "drop_leaves", "make_leaf", "use_leaf",
-    "drop_leaf", "make_fn", "use_fn", "drop_fn", "spawn", "poll", "fire", "cancel", "join", "concat", "spawn_async", "deref", "map_reading", "pad", "spawn_lazy", "spawn_small", "skew_enum",
+    "drop_leaf", "make_fn", "use_fn", "drop_fn", "spawn", "poll", "fire", "cancel", "join", "concat", "spawn_async", "deref", "map_reading", "pad", "spawn_lazy", "spawn_small", "skew_enum", "fill",
 ];
 pub fn op_code(name: &str) -> i64 {
     OP_NAMES.iter().position(|n| *n == name).map(|x| x as i64).unwrap_or(2)
@@ -261,7 +261,7 @@ pub fn run_world(plan: &Plan, kind: WorldKind) -> RunLog {
                     }
                     _ => "noop".into(),
                 },
-                "add" | "deref" | "map_reading" | "join" | "concat" | "echo_string" | "echo_vec" | "sum_ref" | "pad" | "len_ref" | "count_str" | "sum_slice" | "try_div" | "many" | "call_stored" | "ping_leaves" => {
+                "add" | "deref" | "map_reading" | "join" | "concat" | "echo_string" | "echo_vec" | "sum_ref" | "pad" | "fill" | "len_ref" | "count_str" | "sum_slice" | "try_div" | "many" | "call_stored" | "ping_leaves" => {
                     let Some(i) = pick(&conns, a) else { return "noop".into() };
                     let svc: &dyn Svc = &**conns[i].as_ref().unwrap();
                     match name {
@@ -305,6 +305,14 @@ pub fn run_world(plan: &Plan, kind: WorldKind) -> RunLog {
                         "sum_ref" => {
                             let p = Packed3 { a: b as u64, b: c as u64, c: 7 };
                             format!("ok {}", svc.sum_ref(&p))
+                        }
+                        "fill" => {
+                            // the implementation writes into the caller's buffer through &mut dyn BufMut; a Vec that just
+                            // grew offers 64-byte chunks, one with a reserve offers it all at once
+                            let n = (b.unsigned_abs() % 400) as u32;
+                            let mut v: Vec<u8> = if c % 2 == 0 { Vec::new() } else { Vec::with_capacity((c.unsigned_abs() % 300) as usize) };
+                            svc.fill(&mut v, n, c as u32);
+                            format!("ok {}", digest(&v))
                         }
                         "pad" => {
                             // the bytes between `b` and the end of the struct are padding: give them a recognisable
@@ -372,6 +380,17 @@ pub fn run_world(plan: &Plan, kind: WorldKind) -> RunLog {
                     let other: Option<&dyn Svc> = conns.iter().flatten().map(|x| &**x).nth(1);
                     let f = |x: u32| -> u32 {
                         let g = &g;
+                        // in the re-entrant mode a local of the callback calls into the connection when it is dropped -
+                        // also when that happens because the callback is unwinding
+                        struct CallOnDrop<'a>(Option<&'a dyn Svc>);
+                        impl Drop for CallOnDrop<'_> {
+                            fn drop(&mut self) {
+                                if let Some(s) = self.0 {
+                                    let _ = s.add(7, 7);
+                                }
+                            }
+                        }
+                        let _d = CallOnDrop(if mode == 1 { Some(svc) } else { None });
                         fault_point("cb.call");
                         log(format!("cb.call x={} mode={} g={}", x, mode, g.kind()));
                         match mode {
@@ -508,7 +527,10 @@ pub fn run_world(plan: &Plan, kind: WorldKind) -> RunLog {
                     }
                     let ev = (b.unsigned_abs() % 8) as u32;
                     max_event = max_event.max(ev + 1);
-                    let f: Pin<Box<dyn Future<Output = u32>>> = if c % 2 == 0 {
+                    let f: Pin<Box<dyn Future<Output = u32>>> = if c % 3 == 2 {
+                        let inner = conns[i].as_ref().unwrap().fut_unpin(ev);
+                        Box::pin(async move { inner.await as u32 })
+                    } else if c % 2 == 0 {
                         let inner = conns[i].as_ref().unwrap().fut_bool(ev);
                         Box::pin(async move { inner.await as u32 })
                     } else {
@@ -814,7 +836,7 @@ pub fn gen_plan(seed: u64) -> Plan {
     let fam_conn = rng.chance(1, 2);
     let mut pool: Vec<&str> = vec!["add"];
     if fam_data {
-        pool.extend(["deref", "map_reading", "echo_string", "echo_string", "join", "join", "concat", "concat", "echo_vec", "sum_ref", "pad", "skew_enum", "len_ref", "count_str", "sum_slice", "try_div", "bump", "many"]);
+        pool.extend(["deref", "map_reading", "echo_string", "echo_string", "join", "join", "concat", "concat", "echo_vec", "sum_ref", "pad", "skew_enum", "fill", "fill", "len_ref", "count_str", "sum_slice", "try_div", "bump", "many"]);
     }
     if fam_cb {
         pool.extend(["call_fn", "call_fn", "call_fnmut"]);
